@@ -147,7 +147,10 @@ async def _battery_run(case: dict[str, Any], vec: list[str], out: dict[str, Any]
         req = Request(power=Power.from_watts(case["power"]), component_ids=set(all_bats), adjust_power=True)
         await mgr.distribute_power(req)
         res = res_rx.consume() if res_rx._q else None  # noqa: SLF001
-        out["rounds"].append({"result": res, "calls": [dict(c) for c in api.calls], "request": req,
+        extra = []
+        while res_rx._q:  # noqa: SLF001  (exactly one result per processed request)
+            extra.append(repr(res_rx.consume())[:200])
+        out["rounds"].append({"result": res, "calls": [dict(c) for c in api.calls], "request": req, "extra_results": extra,
                               "inv_bats": {i: sorted(bats) for bats, invs in groups for i in invs}})
         if k + 1 < n_req:
             await asyncio.sleep(0.2)
@@ -203,7 +206,10 @@ async def _pv_run(case: dict[str, Any], vec: list[str], out: dict[str, Any]) -> 
     req = Request(power=Power.from_watts(case["power"]), component_ids=set(ids), adjust_power=True)
     await mgr.distribute_power(req)
     res = res_rx.consume() if res_rx._q else None  # noqa: SLF001
-    out["rounds"].append({"result": res, "calls": [dict(c) for c in api.calls], "request": req,
+    extra = []
+    while res_rx._q:  # noqa: SLF001
+        extra.append(repr(res_rx.consume())[:200])
+    out["rounds"].append({"result": res, "calls": [dict(c) for c in api.calls], "request": req, "extra_results": extra,
                           "inv_bats": {i: [i] for i in ids}})
     await mgr.stop()
 
@@ -225,6 +231,8 @@ def _judge(case: dict[str, Any], vec: list[str], rnd: dict[str, Any], rec: Any, 
     if res is None:
         rec.violation("no-result-for-processed-request", w)
         return
+    if rnd.get("extra_results"):
+        rec.violation("more-than-one-result-for-one-request", {**w, "further_results": rnd["extra_results"][:3]})
     if isinstance(res, OutOfBounds):
         # the request sits exactly on the advertised exclusion bound; advertised (per-group sums) and enforced
         # (sums over all components) add the same numbers in different orders: last-ulp sliver, counted
